@@ -45,5 +45,20 @@ CHECKS["C19"] = dict(
     note="small scope: 2 nodes, <=9 values, <=2 configurations, <=2-3 calls after the seed; assumptions listed in evidence",
 )
 
+ENGINES.append({"name": "rewrite", "path": "specs/rewrite/Rewrite.tla", "serves_properties": ["C05", "C14"],
+                "kind_free_text": "abstract dataflow programs with Herbrand denotation (Rewrite.tla), complete small-program generator (RewriteMC.tla), validation of observed pass applications (RewriteTrace.tla), pass contract / ONNX boundary with faults (PassContract.tla), combinators (PassManager.tla); harness/vfh/rewrite.py (concretize/abstract), passrun.py, passcheck.py, irobs.py + specs/ir/ObsCheck.tla"})
+CHECKS["C05"] = dict(
+    engine="rewrite", design_ref="DESIGN.md §4 C05",
+    technique="TLC-generated corpus of abstract programs concretised to ONNX + TLC evaluation of Herbrand-denotation equality on the abstraction of every real pass application (translation validation against the TLA+ semantics) + concrete witness",
+    text="TLC enumerates every small abstract program (control flow with captures, functions with attribute parameters, optional I/O, multi-output nodes, duplicate constants/initializers, outputs aliasing inputs); each is concretised to a checker-valid model, every built-in pass and several pass sequences are run on fresh copies, the results are abstracted back and TLC evaluates interface preservation and equality of Herbrand denotations (equal outputs for all inputs and all operator interpretations); a violation is reported only with a concrete witness (different outputs on seeded inputs, changed arity/inputs, or the ONNX checker rejecting the result).",
+    note="small scope (<=2 main-graph nodes plus bodies/functions, sampled in the quick tier); operator semantics uninterpreted; witnesses use onnx ReferenceEvaluator/onnxruntime; the abstraction function is validated by abstract(concretize(P)) = P on every program",
+)
+CHECKS["C14"] = dict(
+    engine="rewrite", design_ref="DESIGN.md §4 C14",
+    technique="TLC model checking of PassContract.tla (ONNX call boundary with faults) and PassManager.tla + TLC trace validation of recorded pass applications (contract formulas, C01 invariants on every resulting model) + fault replay on real CheckerPass/ShapeInferencePass",
+    text="the call boundary is specified as an action system with a fault at every step and the requirement 'entry model restored at every exit'; combinators are checked to preserve the flag/identity contracts; every real pass application on the TLC-generated corpus is recorded (object identity, modified flag vs byte-level change, re-application rounds, sortedness, naming) and TLC evaluates Identity/FlagSound/Fixpoint/NoDamage/AnalysisOnly on each record and the C01 invariants on each resulting model; every entry model x fault position of the boundary is replayed on the real analysis passes with a full snapshot comparison.",
+    note="convergence required of single passes only; modified=False compared against deterministic proto bytes; faults injected by a raising LazyTensor and by patching onnx.checker/shape_inference in the harness process",
+)
+
 _PENDING = "check not built yet in this round (specification planned in DESIGN.md §4); not claimed until its TLA+ model and binding exist"
-NOT_APPLICABLE = {p: _PENDING for p in ["C02", "C03", "C04", "C05", "C07", "C08", "C09", "C10", "C11", "C12", "C14", "C15", "C16", "C17", "C18"]}
+NOT_APPLICABLE = {p: _PENDING for p in ["C02", "C03", "C04", "C07", "C08", "C09", "C10", "C11", "C12", "C15", "C16", "C17", "C18"]}
